@@ -20,6 +20,7 @@ EXPLANATION = (
     "entry from exactly that entry's range, population_size times; random_permutation shuffles 0..dimension; "
     "random_bitstring has `dimension` bits. Every Initialization::initialize wrapper yields the requested number of solutions of the problem's dimension (generators inlined). NOT decided: floating-point rounding of the bound arithmetic beyond the "
     "sampled regions, termination probability of resampling for arbitrary sample sequences.")
+EXPLANATION += " " + "(R3/R4 revised) the boundary and initialisation drivers on the real stack (populations underneath, members with and without objective value), stack and generator owned by the current or the enclosing scope: a stack of the driver's own would hide the new population from the heuristic."
 ASSUMPTIONS = ["rand's gen_range(range) returns a member of the range; Normal::sample returns a finite value"]
 
 BC = "mahf::components::boundary::BoundaryConstraint"
